@@ -52,8 +52,10 @@ structure Quirks where
   exportParamTruthy : Bool := false
   /-- cirq exporter raises on `Barrier` / `NopGate` -/
   cirqNopRaises : Bool := false
-  /-- `QintImp.mod` computes `x & (y - 1)` for every right operand, not only constant powers of two -/
+  /-- `QintImp.mod` computes `x & (y - 1)` also for a literal right operand that is not a power of two -/
   modNonPow2 : Bool := false
+  /-- `QintImp.mod` accepts a right operand that is not a literal (`x & (y - 1)` is right only when it holds 2^n) -/
+  modVarDivisor : Bool := false
   /-- `Qchar.eq/neq` compare only the zipped prefix of operands of different widths -/
   charEqZip : Bool := false
   /-- `translate_statement(Assign)`: a tuple-typed value keeps the flat bit list of `Arg.to_exp`, so the
@@ -91,6 +93,7 @@ def Quirks.ofList (l : List String) : Quirks :=
     exportParamTruthy := l.contains "exportParamTruthy"
     cirqNopRaises := l.contains "cirqNopRaises"
     modNonPow2 := l.contains "modNonPow2"
+    modVarDivisor := l.contains "modVarDivisor"
     charEqZip := l.contains "charEqZip"
     tupleAssignFlat := l.contains "tupleAssignFlat"
     noReturnAccepted := l.contains "noReturnAccepted"
